@@ -63,4 +63,14 @@ Definition conway_pairs (d : nat) : list (schema * rule) := [
   (BootstrapWitnesses, RSet 0 bootstrap_witness);
   (TransactionWitnessSet d, transaction_witness_set);
   (Transaction d, transaction);
-  (IntS, r_int)].
+  (IntS, r_int);
+  (* block types: the library writes header bodies FLAT; HeaderBody (two VRF certificates, 15 items) is the pre-Babbage shape,
+     HeaderBodyPraos (one VRF result, 14 items) is the shape of no era - see KnownClass.v *)
+  (VRFCert, vrf_cert);
+  (OperationalCert, operational_cert);
+  (HeaderBody, RRef N_header_body);
+  (Header, header);
+  (HeaderBodyPraos, RRef N_header_body);
+  (HeaderPraos, header);
+  (Block d, block);
+  (BlockPraos d, block)].
